@@ -165,7 +165,7 @@ pub fn run(cfg: &RunCfg) -> PartResult {
     for entry in list {
         let g = entry.ograph();
         let d = *entry.dims.iter().min().unwrap();
-        let nr = if g.num_loops() >= 3 { 2 } else { 3 };
+        let nr = if g.ne() >= 6 { 1 } else if g.num_loops() >= 3 { 2 } else { 3 };
         for routing in routings(&g, nr) {
             covered.push(json!({"graph": entry.name, "E": entry.ne(), "L": g.num_loops(), "D": d, "routing": routing.name}));
             total.merge(check_harness(&C10 { entry: entry.clone(), d, routing, thorough: cfg.tier == Tier::Thorough }, cfg));
